@@ -112,8 +112,8 @@ def gen_case(rng):
         maps[rng.randrange(S * C)] = [row[:] for row in maps[0]]
     p = rng.choice([0, 1, 2, 3, 3, 4, 5, 5, 6, 7, 8])  # integral_patch_size; 0 = refinement None
     dtype = rng.choice(DTYPE_MIX)
-    if dtype in HALF:
-        p = 0  # integral refinement of half-precision maps is out of domain on the unchanged tree: see half_refine_probe
+    if dtype in HALF and rng.random() < 0.4:
+        p = 0  # (the rest keeps its patch size: excluded region F-C06half, see half_precision_refine)
     kind = "+".join(sorted(set(kinds)))
     if dtype == "f64" and rng.random() < 0.5:
         # float64-only structure: differences far below float32 resolution
@@ -189,7 +189,7 @@ def big_half_case(rng):
         k = min(k, n - 1)
         i, j = (rng.randrange(h), k) if along_x else (k, rng.randrange(w))
         m[i][j] = rng.randrange(4, 9)
-    return {"S": 1, "C": 1, "h": h, "w": w, "den": 8, "maps": [m], "thr": 0.125, "p": 0,
+    return {"S": 1, "C": 1, "h": h, "w": w, "den": 8, "maps": [m], "thr": 0.125, "p": rng.choice([0, 3, 5]),
             "dtype": dtype, "kind": "big_half", "shape": "big_half"}
 
 
@@ -501,6 +501,11 @@ def run_case(chk, I, case, mline, where="generated"):
     extra_rough_oracles(chk, I, case, cms, a, rough, small, dtype)
     if p == 0 or (rough and rough[0] == "raise"):
         return
+    # half-precision maps (finding F-C06half): the correspondence and the oracles below run on the IDENTICAL VALUES passed as
+    # float32; the half-precision call itself is then compared with that answer (end of this function)
+    half_in = (cms, dtype) if dtype in HALF else None
+    if half_in:
+        cms, dtype = cms.float(), "f32"
     refined = I.full(cms, thr, "integral", p)
     if is_p1_raise(refined, p):
         # documented behaviour of the pinned tree (finding F-C06p1); the model's value is rough + 0
@@ -518,7 +523,7 @@ def run_case(chk, I, case, mline, where="generated"):
         for k, (q, m) in enumerate(zip(refined, model)):
             P = patch_of(np, a, m[3], m[4], m[0], m[1], p)
             z, az = float(P.sum()), eff_abs_sum(np, P, a[m[3], m[4]], p)
-            if m[5] == "inf" or abs(z) < 1e-3 * az:
+            if m[5] == "inf" or abs(z) <= 1e-3 * az:
                 chk.knife_edges += 1
                 chk.tag("knife:patch_sum~0")
                 continue
@@ -539,6 +544,51 @@ def run_case(chk, I, case, mline, where="generated"):
         chk.extra["excluded_region_cases"] = chk.extra.get("excluded_region_cases", 0) + 1
     if why:
         fail(chk, f"C06 fails on find_local_peaks(integral, p={p}): {why}", small, str(refined)[:600], sigs)
+    if half_in and p >= 2:
+        half_precision_refine(chk, I, "find_local_peaks", I.full(half_in[0], thr, "integral", p), refined,
+                              lambda got: half_agrees(np, a, rough, got, refined, p, half_in[1]),
+                              lambda got: oracle_refine(np, a, rough, got, p, half_in[1]), small, p)
+
+
+def half_agrees(np, a, rough, got, ref, p, dtype):
+    """half-precision answer vs the float32 answer on the same values, peak by peak (the rough cells are known): fields exactly;
+    where the true normaliser is not within sampling-leak noise of 0 the half-precision point must be finite and within the
+    half-precision tolerance of the float32 point"""
+    if [(q[2], q[3], q[4]) for q in got] != [(q[2], q[3], q[4]) for q in ref] or len(got) != len(rough):
+        return False
+    for g, qa, qb in zip(rough, got, ref):
+        P = patch_of(np, a, g[3], g[4], int(g[0]), int(g[1]), p)
+        z, az = float(P.sum()), eff_abs_sum(np, P, a[g[3], g[4]], p)
+        if abs(z) <= 1e-3 * az:
+            continue  # knife-edge: the half-precision sum may round the normaliser to exactly 0
+        tol = REFINE_TOL[dtype] * max(1.0, (p + 1) / 2 * az / abs(z))
+        for u, v in ((qa[0], qb[0]), (qa[1], qb[1])):
+            if not (u == u and abs(u) != float("inf") and abs(u - v) <= tol):
+                return False
+    return True
+
+
+def finite_like(got, ref):
+    """every coordinate that is finite in `ref` is finite in `got` (records (x, y, ...))"""
+    def fin(v):
+        return v is not None and v == v and abs(v) != float("inf")
+    return len(got) == len(ref) and all(fin(u) or not fin(v) for qa, qb in zip(got, ref) for u, v in ((qa[0], qb[0]), (qa[1], qb[1])))
+
+
+def half_precision_refine(chk, I, fn, got, ref32, agrees, bound_oracle, small, p):
+    """EXCLUDED REGION / finding F-C06half (C07: same entry): integral refinement of a float16 / bfloat16 map.  `ref32` is the
+    answer of the same function on the identical values passed as float32 (already compared with the model and judged by the
+    oracles).  Effect-based signature `half_precision_crop`: the half-precision call raises, returns non-finite points or
+    points that differ from `ref32` beyond the half-precision tolerance — i.e. the failure disappears when the same values
+    are float32 (kornia's crop_and_resize casts the boxes and solves the perspective transform in the map's dtype)."""
+    chk.extra["excluded_region_half_precision_refine"] = chk.extra.get("excluded_region_half_precision_refine", 0) + 1
+    bad = (got and got[0] in ("raise", "badshape")) or not agrees(got)
+    if bad:
+        fail(chk, f"C06/C07: {fn}(integral, p={p}) on a half-precision map differs from its answer on the same values as float32",
+             small, {"half": str(got)[:300], "float32": str(ref32)[:300]}, ["half_precision_crop"])
+        return
+    # (no separate bound test on the half-precision answer: it agrees, within the half-precision tolerance, with the float32
+    #  answer that has just been judged by the bound oracle; `bound_oracle` is kept for callers that want it)
 
 
 def half_refine_probe(chk, torch, fn, name):
@@ -591,15 +641,58 @@ def same_records(np, a2_of, recA, recB, p, dtype):
             for xx in range(max(0, g[0] - p), min(a2.shape[1], g[0] + p + 1)):
                 P = patch_of(np, a2[None, None], 0, 0, xx, yy, p)
                 z, az = float(P.sum()), eff_abs_sum(np, P, a2, p)
-                tol = max(tol, float("inf") if abs(z) < 1e-3 * az else REFINE_TOL[dtype] * max(1.0, (p + 1) / 2 * az / abs(z)))
+                tol = max(tol, float("inf") if abs(z) <= 1e-3 * az else REFINE_TOL[dtype] * max(1.0, (p + 1) / 2 * az / abs(z)))
         if not (abs(qa[0] - qb[0]) <= tol and abs(qa[1] - qb[1]) <= tol):
             return False
     return True
 
 
+LAYOUTS = ["channels_last", "padded_slice", "channel_stride2", "permuted_CS", "expanded", "hw_transposed"]
+JUNK = 9.0  # larger than every generated value: reading outside the view would create/suppress peaks
+
+
+def memory_layout(torch, cms, name):
+    """the same VALUES as `cms` (S,C,h,w) in another memory layout; returns (view, reference) where `reference` is None when the
+    values are those of `cms` itself (the answer must equal the contiguous tensor's, hence the model's) or the contiguous
+    clone to compare with (layout `expanded`, whose values are S copies of sample 0).
+      channels_last   : cms.contiguous(memory_format=torch.channels_last)          (what many networks emit)
+      padded_slice    : [..., 1:h+1, 2:w+2] of a larger JUNK-filled buffer         (cropped back from a stride-padded buffer)
+      channel_stride2 : [:, ::2] of a buffer with JUNK in the odd channels           (channel subset)
+      permuted_CS     : a (C,S,h,w) buffer permuted to (S,C,h,w)                     (sample/channel dims cannot be merged)
+      expanded        : sample 0 expanded to S samples with stride 0
+      hw_transposed   : a (S,C,w,h) buffer transposed in its last two dims"""
+    S, C, h, w = cms.shape
+    if name == "channels_last":
+        return cms.contiguous(memory_format=torch.channels_last), None
+    if name == "padded_slice":
+        big = torch.full((S, C, h + 3, w + 5), JUNK, dtype=cms.dtype)
+        big[..., 1:h + 1, 2:w + 2] = cms
+        return big[..., 1:h + 1, 2:w + 2], None
+    if name == "channel_stride2":
+        big = torch.full((S, 2 * C, h, w), JUNK, dtype=cms.dtype)
+        big[:, ::2] = cms
+        return big[:, ::2], None
+    if name == "permuted_CS":
+        return cms.permute(1, 0, 2, 3).contiguous().permute(1, 0, 2, 3), None
+    if name == "expanded":
+        v = cms[0:1].expand(S, C, h, w)
+        return v, v.contiguous()
+    if name == "hw_transposed":
+        return cms.transpose(2, 3).contiguous().transpose(2, 3), None
+    raise ValueError(name)
+
+
+def layouts_for(chk, case):
+    """two of the six layouts per case (all six over three consecutive cases); a replayed case names its layout"""
+    if case.get("layout"):
+        return [case["layout"]]
+    n = chk.evaluations
+    return [LAYOUTS[n % 6], LAYOUTS[(n + 3) % 6]]
+
+
 def extra_rough_oracles(chk, I, case, cms, a, rough, small, dtype):
     """implementation-level oracles on the rough detector (independent of the model), each on a fraction of the cases:
-    every map alone == its records in the batch; a non-contiguous view of the same tensor; refinement='<other string>';
+    every map alone == its records in the batch; the same values in other memory layouts; refinement='<other string>';
     default arguments"""
     np, torch = I.np, I.torch
     S, C, thr = case["S"], case["C"], case["thr"]
@@ -615,17 +708,16 @@ def extra_rough_oracles(chk, I, case, cms, a, rough, small, dtype):
                 if alone != want:
                     fail(chk, "C06: the peaks of one map depend on the other maps in the batch (find_local_peaks_rough)",
                              {**small, "map": [s_, c_]}, {"in_batch": str(want)[:300], "alone": str(alone)[:300]})
-    if n % 6 == 1 and case["h"] * case["w"] > 1:
-        chk.tag("oracle:non-contiguous")
-        nc = cms.transpose(2, 3).contiguous().transpose(2, 3)
-        got = I.rough(nc, thr)
-        if nc.is_contiguous() and case["h"] > 1 and case["w"] > 1:
-            chk.tag("oracle:non-contiguous(view was contiguous)")
-        if got != rough:
-            chk.disagree("find_local_peaks_rough on a non-contiguous view == on the contiguous tensor", small, str(got)[:400], str(rough)[:400])
-            why = oracle_rough(np, a, thr, got, dtype)
-            if why:
-                fail(chk, f"C06 fails on find_local_peaks_rough (non-contiguous input): {why}", small, str(got)[:400], oracle_rough.sigs)
+    # memory layouts: the same values in another layout must give the contiguous tensor's answer
+    for name in layouts_for(chk, case):
+        v, ref_t = memory_layout(torch, cms, name)
+        chk.tag(f"layout:{name}" + ("" if not v.is_contiguous() else "(contiguous for this shape)"))
+        for fn_name, got, ref in (
+                ("find_local_peaks_rough", I.rough(v, thr), rough if ref_t is None else I.rough(ref_t, thr)),
+                ("find_local_peaks(refinement=None)", I.full(v, thr, None, 5), rough if ref_t is None else I.rough(ref_t, thr))):
+            if got != ref:
+                fail(chk, f"C06: {fn_name} on a `{name}` view of the maps differs from its answer on the contiguous clone",
+                     {**small, "layout": name, "strides": list(v.stride())}, {"view": str(got)[:300], "contiguous": str(ref)[:300]})
     if n % 7 == 2:
         chk.tag("oracle:refinement=other-string")
         got = I.full(cms, thr, "local", 5)
@@ -663,10 +755,13 @@ def extra_refined_oracles(chk, I, case, cms, a, refined, small, dtype):
                 if (alone and alone[0] == "raise") or not same_records(np, lambda q: a[s_, c_], alone, want, p, dtype):
                     fail(chk, "C06: the refined peaks of one map depend on the other maps in the batch (find_local_peaks, integral)",
                              {**small, "map": [s_, c_]}, {"in_batch": str(want)[:300], "alone": str(alone)[:300]})
-    if n % 6 == 1 and case["h"] * case["w"] > 1:
-        got = I.full(cms.transpose(2, 3).contiguous().transpose(2, 3), thr, "integral", p)
-        if (got and got[0] == "raise") or not same_records(np, lambda q: a[q[3], q[4]], got, refined, p, dtype):
-            chk.disagree("find_local_peaks(integral) on a non-contiguous view == on the contiguous tensor", small, str(got)[:400], str(refined)[:400])
+    for name in layouts_for(chk, case):
+        v, ref_t = memory_layout(I.torch, cms, name)
+        got = I.full(v, thr, "integral", p)
+        ref, aa = (refined, a) if ref_t is None else (I.full(ref_t, thr, "integral", p), I.exact(ref_t))
+        if (got and got[0] == "raise") or (ref and ref[0] == "raise") or not same_records(np, lambda q: aa[q[3], q[4]], got, ref, p, dtype):
+            fail(chk, f"C06: find_local_peaks(integral, p={p}) on a `{name}` view of the maps differs from its answer on the contiguous clone",
+                 {**small, "layout": name, "strides": list(v.stride())}, {"view": str(got)[:300], "contiguous": str(ref)[:300]})
     if p == 5 and thr == 0.2 and dtype == "f32":
         r = call(I.pf.find_local_peaks, cms, refinement="integral")
         got = ("raise",) + r[1:] if r[0] == "raise" else I.canon(r[1])
@@ -703,6 +798,18 @@ def main(chk: Check):
                 if got != [(float(x), float(y), v, s_, c_) for x, y, v, s_, c_, _ in m]:
                     chk.disagree(f"{ent['id']} witness: implementation == model", ent["witness"], str(got), str(m))
             chk.known_replay(ent["id"], still_fails=bool(why) and ent["signature"] in oracle_rough.sigs, detail=f"impl={got} {why}")
+            continue
+        if ent["signature"] == "half_precision_crop":
+            p_ = case["p"]
+            ref32 = I.full(cms.float(), case["thr"], "integral", p_)
+            got = I.full(cms, case["thr"], "integral", p_)
+            m = parse_model(run_driver("C06.lean", [model_line(case, cms)])[0])
+            if not (ref32 and ref32[0] != "raise" and len(ref32) == len(m) and all(
+                    mm[5] not in (None, "inf") and abs(q[0] - float(mm[5][0])) < 1e-3 for q, mm in zip(ref32, m))):
+                chk.disagree(f"{ent['id']} witness: float32 answer == model", ent["witness"], str(ref32), str(m))
+            a_w = I.exact(cms)
+            still = (got and got[0] == "raise") or not half_agrees(np, a_w, I.rough(cms, case["thr"]), got, ref32, p_, case["dtype"])
+            chk.known_replay(ent["id"], still_fails=bool(still), detail=f"half={got} float32={ref32}")
             continue
         got = I.full(cms, case["thr"], "integral", ent["witness"]["patch"])
         rough = I.rough(cms, case["thr"])
@@ -797,7 +904,7 @@ def main(chk: Check):
         dx, dy = float(dx), float(dy)
         z, az = sum(ints) / 8, sum(abs(v) for v in ints) / 8
         chk.case(("offsets", p, tuple(ints)) if az > 0 else None, None, tags=["op:offsets"])
-        if m == "inf inf" or abs(z) < 1e-3 * az:
+        if m == "inf inf" or abs(z) <= 1e-3 * az:
             chk.knife_edges += 1
             continue
         mx, my = (float(Fraction(s)) for s in m.split())
@@ -837,7 +944,10 @@ if __name__ == "__main__":
         rule="S,C in 1..3, maps 1x1 / 1xN / Nx1 / up to 10x10 on the 1/8 or 1/16 lattice (few-level random fields = many ties, plateaus, "
              "sparse border/corner peaks, quantised Gaussian bumps, each with and without negative values; duplicate maps across slots), "
              "7 thresholds incl. negative and -1e4, integral_patch_size 1..8 (odd and even) or none; 4 % maps of 11..24 cells per side, 5 % batches up to 5x5 maps, 6 % of float32/float64 cases with values around +-1e4 and thresholds down to -20000; distinct = distinct (shape, thr, patch, map bytes) with >= 1 peak; "
-             "trivial = no peak; plus raw patches through integral_regression",
+             "trivial = no peak; plus raw patches through integral_regression; MEMORY LAYOUTS: every case is also run (two layouts "
+             "per case, all six over three cases) as channels_last, a slice of a larger JUNK-padded buffer in H and W, an every-other-channel "
+             "view, a (C,S,h,w)-permuted view, a stride-0 expanded batch and an H/W-transposed view — the answers of all public functions "
+             "must equal the contiguous clone's (values, not layouts, are what the model sees: nothing changes on the Lean side)",
         assumptions=[
             "finite maps; threshold >= -1e4 (kornia's border constant); integral_patch_size 1..8: odd p reads cells, even p reads "
             "means of four cells (half-integer sampling), both modelled; p = 1 raises inside kornia (F-C06p1) where the model gives offset 0",
@@ -849,8 +959,11 @@ if __name__ == "__main__":
             "dtypes: maps in float64 / float32 / float16 / bfloat16; the model is dtype-agnostic (runs on the exact values): "
             "comparisons are exact in the map's own dtype, coordinates are float32 integers, values keep the map's dtype — "
             "checked exactly for the rough detector in all four dtypes; thresholds are dyadic except 0.2 with float32 maps",
-            "OUT OF DOMAIN (recorded in evidence.out_of_domain, not judged): integral refinement of float16/bfloat16 maps — on the "
-            "unchanged tree kornia's crop_and_resize raises _LinAlgError for many shapes and returns NaN for large maps",
+            "EXCLUDED REGION (finding F-C06half, repair offered in fixes/C07-half-precision-crop.patch): integral refinement of float16/bfloat16 "
+            "maps. ~60 % of the half-precision cases keep their patch size: correspondence and oracles run on the identical values as "
+            "float32, then the half-precision call is compared with that answer peak by peak (half-precision tolerance, knife-edges "
+            "skipped); a raise / NaN / discrepancy carries the effect-based signature half_precision_crop. The fixed outcome probe "
+            "stays in evidence.out_of_domain",
             "refinement bound is proved for non-negative patches with positive sum only (F-C06); negative patches are sampled "
             "every run with the property oracle (excluded_region_cases) — search, not proof",
         ],
